@@ -24,6 +24,41 @@ type extCodec[V any] struct {
 	randVal   func(r *Rand) V                   // arbitrary receiver content / value (in and out of range)
 	values    func(x *Ctx, emit func(v V))      // the value domain for the marshal kind
 	inputs    func(x *Ctx, emit func(b []byte)) // extra byte-string inputs for the unmarshal kind
+	// edit (nil for values without exported pointers / slices): the caller writes through every
+	// exported pointer of a value it was handed (`*v.EstimatedCaptureClockOffset += k`); returns how to
+	// put the old contents back
+	edit func(r *Rand, v *V) (undo func())
+}
+
+// extEditEarlier is the history "earlier results were edited by their owner": OTHER receivers (zero
+// values) decode the given payloads — the very bytes the decode under test is about to see — and the
+// caller then writes through every exported pointer of what they decoded.  None of this touches the
+// receiver under test or the payloads, so what the property says about the decode under test is the
+// same with and without it (the model does not take it as an input; the count is in the case line for
+// the record).  Returns the number of values edited and the undo (run after the observation).
+func extEditEarlier[V any](cd extCodec[V], c *Case, payloads ...[]byte) (int, func()) {
+	if cd.edit == nil || !c.R.Bool() {
+		return 0, func() {}
+	}
+	var undo []func()
+	for _, pl := range payloads {
+		var r0 V
+		var err error
+		if try(func() { err = cd.unmarshal(&r0, cloneBytes(pl)) }) || err != nil {
+			continue
+		}
+		if u := cd.edit(c.R, &r0); u != nil {
+			undo = append(undo, u)
+		}
+	}
+	if len(undo) > 0 {
+		c.Tag("earlier-results-edited-through-their-pointers")
+	}
+	return len(undo), func() {
+		for i := len(undo) - 1; i >= 0; i-- {
+			undo[i]()
+		}
+	}
 }
 
 func extWriteUnitRes(o *Toks, panicked bool, err error) {
@@ -69,11 +104,13 @@ func extGenMarshal[V any](cd extCodec[V]) func(x *Ctx) {
 				var out []byte
 				var err error
 				if try(func() { out, err = cd.marshal(v) }) {
+					c.I.Nat(0)
 					c.O.Panic().None().Bool(true)
 					c.Tag("marshal-panic")
 					return
 				}
 				if err != nil {
+					c.I.Nat(0)
 					c.O.Err("other").None().Bool(true)
 					c.Tag("marshal-err")
 					c.Trivial()
@@ -81,6 +118,9 @@ func extGenMarshal[V any](cd extCodec[V]) func(x *Ctx) {
 				}
 				c.Tag("marshal-ok")
 				c.O.Ok().Bytes(out)
+				edits, undo := extEditEarlier(cd, c, out)
+				defer undo()
+				c.I.Nat(edits)
 				recv := prev
 				var uerr error
 				p := try(func() { uerr = cd.unmarshal(&recv, out) })
@@ -114,6 +154,9 @@ func extGenUnmarshal[V any](cd extCodec[V]) func(x *Ctx) {
 				// The receiver starts as a struct copy of prev (`recv := prev`).  After every earlier
 				// decode that succeeded the caller keeps what was decoded (a struct copy of the receiver)
 				// and what it reports; after the decode under test the kept values are read again.
+				edits, undo := extEditEarlier(cd, c, append(append([][]byte{}, hist...), raw)...)
+				defer undo()
+				c.I.Nat(edits)
 				prevReported := extRender(cd, prev)
 				recv := prev
 				var kept []V
@@ -426,7 +469,16 @@ var extAbsCaptureCodec = extCodec[rtp.AbsCaptureTimeExtension]{
 	// decode writes through a pointer the receiver shares with a value the caller still holds is part
 	// of what the kinds observe
 	unmarshal: func(r *rtp.AbsCaptureTimeExtension, b []byte) error { return r.Unmarshal(b) },
-	randVal:   extRandCapture,
+	edit: func(r *Rand, v *rtp.AbsCaptureTimeExtension) func() {
+		p := v.EstimatedCaptureClockOffset
+		if p == nil {
+			return nil
+		}
+		old := *p
+		*p += int64(r.U64()>>uint(r.Intn(60))) | 1 // re-based by hand
+		return func() { *p = old }
+	},
+	randVal: extRandCapture,
 	values: func(x *Ctx, emit func(rtp.AbsCaptureTimeExtension)) {
 		for _, t := range extEdge64 {
 			emit(rtp.AbsCaptureTimeExtension{Timestamp: t})
@@ -576,7 +628,7 @@ func init() {
 	register("c17.abscapture.m", "C17", extGenMarshal(extAbsCaptureCodec))
 	register("c17.abscapture.u", "C17", extGenUnmarshal(extAbsCaptureCodec))
 
-	// c18.capture <t> => ok <Timestamp> <CaptureTime().UnixNano()>
+	// c18.capture <t> => ok <Timestamp> <CaptureTime().UnixNano()> <the same, asked again>
 	register("c18.capture", "C18", func(x *Ctx) {
 		one := func(mk func(c *Case) int64) {
 			x.Case(func(c *Case) {
@@ -587,16 +639,17 @@ func init() {
 					c.Trivial()
 				}
 				var ts uint64
-				var back int64
+				var back, again int64
 				if try(func() {
 					e := rtp.NewAbsCaptureTimeExtension(time.Unix(0, t))
 					ts = e.Timestamp
 					back = e.CaptureTime().UnixNano()
+					again = e.CaptureTime().UnixNano() // a read: the second answer is the first
 				}) {
 					c.O.Panic()
 					return
 				}
-				c.O.Ok().U64(ts).I64(back)
+				c.O.Ok().U64(ts).I64(back).I64(again)
 				if t >= 0 && t < extEraEndNs {
 					if back == t {
 						c.Tag("exact")
@@ -651,7 +704,8 @@ func init() {
 		}
 	})
 
-	// c18.offset <t> <d> <holder> => ok <Timestamp> <raw offset> <duration> <opt duration via the wire> <opt holder's duration afterwards>
+	// c18.offset <t> <d> <holder> <hist> => ok <Timestamp> <raw offset> <duration> <opt duration via the wire> <opt holder's duration afterwards>
+	//                                        <duration, asked again> <duration, asked of a struct copy> <opt duration via the wire, asked again>
 	//   holder = none: the wire form is decoded by a zero-value receiver;
 	//   holder = some <how> <d2>: somebody holds an extension h2 with offset d2 and the receiver that decodes
 	//   the wire form shares its history — how=0: the receiver is a struct copy of
@@ -674,6 +728,15 @@ func init() {
 				} else {
 					c.I.None()
 				}
+				// hist = 1: BEFORE the extension under test is built, the caller has built and decoded other
+				// extensions (with the same offset and with offset 0) and re-based their offsets by hand,
+				// writing through the exported pointer field `*ext.EstimatedCaptureClockOffset += k`
+				hist := 0
+				if c.R.Chance(1, 2) {
+					hist = 1
+					c.Tag("earlier-results-edited-through-their-pointers")
+				}
+				c.I.Nat(hist)
 				if d <= -extMaxOffset || d >= extMaxOffset {
 					c.Tag("offset-out-of-range")
 					c.Trivial()
@@ -683,13 +746,40 @@ func init() {
 					c.Tag("non-negative")
 				}
 				var ts uint64
-				var raw, back int64
-				var wire, held *time.Duration
+				var raw, back, again, againCopy int64
+				var wire, held, wireAgain *time.Duration
+				var undo []func()
+				defer func() { // what was written is put back (no-op for the case itself)
+					for i := len(undo) - 1; i >= 0; i-- {
+						undo[i]()
+					}
+				}()
 				if try(func() {
+					if hist == 1 {
+						for _, d0 := range []int64{d, 0} {
+							e0 := rtp.NewAbsCaptureTimeExtensionWithCaptureClockOffset(time.Unix(0, t), time.Duration(d0))
+							var r0 rtp.AbsCaptureTimeExtension
+							if b0, err := e0.Marshal(); err == nil {
+								_ = r0.Unmarshal(b0)
+							}
+							for _, p := range []*int64{e0.EstimatedCaptureClockOffset, r0.EstimatedCaptureClockOffset} {
+								if p != nil {
+									p, old := p, *p
+									*p += int64(c.R.U64()>>uint(c.R.Intn(60))) | 1
+									undo = append(undo, func() { *p = old })
+								}
+							}
+						}
+					}
 					e := rtp.NewAbsCaptureTimeExtensionWithCaptureClockOffset(time.Unix(0, t), time.Duration(d))
 					ts = e.Timestamp
 					raw = *e.EstimatedCaptureClockOffset
 					back = int64(*e.EstimatedCaptureClockOffsetDuration())
+					// the accessor is a read: asked again, on the same extension and on a struct copy of it,
+					// it gives the same answer
+					again = int64(*e.EstimatedCaptureClockOffsetDuration())
+					ec := *e
+					againCopy = int64(*ec.EstimatedCaptureClockOffsetDuration())
 					b, err := e.Marshal()
 					if err != nil {
 						panic(err)
@@ -714,6 +804,7 @@ func init() {
 						panic(err)
 					}
 					wire = r.EstimatedCaptureClockOffsetDuration()
+					wireAgain = r.EstimatedCaptureClockOffsetDuration()
 					if how >= 0 {
 						held = h2.EstimatedCaptureClockOffsetDuration()
 					}
@@ -722,13 +813,17 @@ func init() {
 					return
 				}
 				c.O.Ok().U64(ts).I64(raw).I64(back)
-				for _, p := range []*time.Duration{wire, held} {
+				opt := func(p *time.Duration) {
 					if p == nil {
 						c.O.None()
 					} else {
 						c.O.Some().I64(int64(*p))
 					}
 				}
+				opt(wire)
+				opt(held)
+				c.O.I64(again).I64(againCopy)
+				opt(wireAgain)
 			})
 		}
 		edges := []int64{0, 1, 2, 3, 4, 5, extNsPerS - 1, extNsPerS, extNsPerS + 1, 1250000000, 250000000, 232830643, 232830644,
